@@ -486,6 +486,28 @@ func c01RunInner(w *explore.Worker, c c01Case) {
 				fail("decode-int", fmt.Sprintf("%d bytes: %d err %v want %d", n, v, err, wantV))
 			}
 		}
+		// the split functions see whatever prefix of the stream the scanner's buffer happens to hold: for every
+		// prefix they either ask for more or cut exactly the first token, and never reach beyond the data
+		{
+			t1 := ref.Tx{Type: uint16(100 + a), ID: off, Fields: []ref.Fld{{ID: 101, Data: pat(a*9, ch)}}}.Encode()
+			f1 := ref.EncodeFields([]ref.Fld{{ID: 102, Data: pat(a*37%300, ch)}})[2:]
+			i1 := append([]byte{0, 0, byte(a * 36)}, pat(a*36, ch)...)
+			for name, first := range map[string][]byte{"transaction": t1, "field": f1, "fileItem": i1} {
+				split := hotline.VerifSplitFuncs()[name]
+				stream := append(append([]byte(nil), first...), first...)
+				for k := 0; k <= len(stream); k++ {
+					adv, tok, err := split(stream[:k:k], false)
+					switch {
+					case err != nil || adv > k:
+						fail("split-function", fmt.Sprintf("%s: %d bytes buffered: advance %d err %v", name, k, adv, err))
+					case k >= len(first) && (adv != len(first) || !bytes.Equal(tok, first)):
+						fail("split-function", fmt.Sprintf("%s: %d bytes buffered hold the whole %d-byte token: advance %d, token %d bytes", name, k, len(first), adv, len(tok)))
+					case k < len(first) && (adv != 0 || tok != nil):
+						fail("split-function", fmt.Sprintf("%s: %d of %d token bytes buffered: advance %d, token %d bytes", name, k, len(first), adv, len(tok)))
+					}
+				}
+			}
+		}
 		long17 := make([]string, 17)
 		for i := range long17 {
 			long17[i] = string(pat(255, ch+byte(i)))
